@@ -27,12 +27,16 @@ class AbstractNet:
     row-wise to the network-space point) and a bijection G given as an
     abstract map that remembers its pairs (G^-1(G y) = y, opposite ladj)."""
 
-    def __init__(self, ctx, d):
+    def __init__(self, ctx, d, name="B"):
         self.ctx, self.d = ctx, d
-        self.B = z3.Function("B", *([core.R] * (d + 1)))
+        self.name = name
+        self.B = z3.Function(name, *([core.R] * (d + 1)))
         self.pairs = []  # (y rows, z rows, ladj)
         self.n = 0
         self.draws = []
+
+    def tag(self):
+        return "" if getattr(self, "name", "B") == "B" else "r"
 
     def base(self, y):
         y = sx.asarray(y)
@@ -44,15 +48,15 @@ class AbstractNet:
 
     def draw(self, n):
         self.n += 1
-        y = sx.sym(f"lat{self.n}", (int(n), self.d))
+        y = sx.sym(f"lat{self.tag()}{self.n}", (int(n), self.d))
         self.draws.append(y)
         return y
 
     def G(self, y):
         y = sx.asarray(y)
         self.n += 1
-        z = sx.sym(f"gz{self.n}", y.shape)
-        l = sx.sym(f"gl{self.n}", (y.shape[0],))
+        z = sx.sym(f"gz{self.tag()}{self.n}", y.shape)
+        l = sx.sym(f"gl{self.tag()}{self.n}", (y.shape[0],))
         self.pairs.append((y, z, l))
         return z, l
 
@@ -62,10 +66,100 @@ class AbstractNet:
             if zz.shape == z.shape and all(a.eq(b) for a, b in zip(sx.terms(zz), sx.terms(z))):
                 return y, -l
         self.n += 1
-        y = sx.sym(f"gy{self.n}", z.shape)
-        l = sx.sym(f"gli{self.n}", (z.shape[0],))
+        y = sx.sym(f"gy{self.tag()}{self.n}", z.shape)
+        l = sx.sym(f"gli{self.tag()}{self.n}", (z.shape[0],))
         self.pairs.append((y, z, -l))
         return y, l
+
+
+_IDENT = lambda f=None, *a, **k: f if f is not None else (lambda g: g)  # noqa: E731
+
+
+def rebound_subclass(cls, patched):
+    """A subclass of the real wrapper class in which EVERY function, property
+    and classmethod defined by the class is the real code object re-bound to
+    globals where tensor construction is the identity and compilation
+    decorators (jit / filter_jit / compile) return the function unchanged --
+    compiling a function does not change what it computes."""
+
+    def rb(fn):
+        g = {**fn.__globals__, **patched}
+        nf = types.FunctionType(fn.__code__, g, fn.__name__, fn.__defaults__, fn.__closure__)
+        nf.__kwdefaults__ = fn.__kwdefaults__
+        return nf
+
+    ns = {}
+    for name, v in cls.__dict__.items():
+        if isinstance(v, types.FunctionType):
+            ns[name] = rb(v)
+        elif isinstance(v, property):
+            ns[name] = property(rb(v.fget) if v.fget else None, rb(v.fset) if v.fset else None, rb(v.fdel) if v.fdel else None)
+        elif isinstance(v, classmethod):
+            ns[name] = classmethod(rb(v.__func__))
+        elif isinstance(v, staticmethod):
+            ns[name] = staticmethod(rb(v.__func__))
+
+    def __getattr__(self, name):
+        # the shell is made with __new__ (the real constructor builds a real
+        # network): private attributes a constructor would initialise read as None
+        if name.startswith("_") and not name.startswith("__"):
+            return None
+        raise AttributeError(name)
+
+    ns["__getattr__"] = __getattr__
+    return type(cls.__name__ + "Rebound", (cls,), ns)
+
+
+def install_net(flow, net, backend):
+    """What fitting does to the wrapper: FlowJax.fit rebinds self._flow to the
+    trained flow; for zuko the module behind self._flow() is a new state."""
+    flow._flow = _zuko_dist_factory(net) if backend == "zuko" else _flowjax_net(net)
+
+
+def _zuko_dist_factory(net):
+    class _Transform:
+        def call_and_ladj(self, y):
+            return net.G(y)
+
+        @property
+        def inv(self):
+            class _I:
+                def call_and_ladj(s, z):
+                    return net.Ginv(z)
+
+            return _I()
+
+    class _Dist:
+        transform = _Transform()
+
+        def log_prob(self, y):
+            return net.base(y)
+
+        def rsample(self, shape):
+            return net.draw(shape[0])
+
+        def rsample_and_log_prob(self, shape):
+            y = net.draw(shape[0])
+            return y, net.base(y)
+
+    return lambda: _Dist()
+
+
+def _flowjax_net(net):
+    class _F:
+        def forward(self, y):
+            return net.G(y)
+
+        def inverse(self, z):
+            return net.Ginv(z)
+
+        def log_prob(self, y):
+            return net.base(y)
+
+        def sample(self, key, shape):
+            return net.draw(shape[0])
+
+    return _F()
 
 
 def zuko_shell(net, data_transform):
@@ -100,19 +194,16 @@ def zuko_shell(net, data_transform):
     shim = types.SimpleNamespace(
         as_tensor=lambda x, dtype=None, device=None: sx.asarray(x),
         no_grad=contextlib.nullcontext,
+        compile=_IDENT,
+        jit=types.SimpleNamespace(script=_IDENT, trace=_IDENT),
     )
-    obj = TF.ZukoFlow.__new__(TF.ZukoFlow)
+    Sub = rebound_subclass(TF.ZukoFlow, {"torch": shim})
+    obj = Sub.__new__(Sub)
     obj.dims = net.d
     obj.device = None
     obj.dtype = None
     obj.data_transform = data_transform
     obj._flow = lambda: _Dist()
-    for name in ("log_prob", "sample_and_log_prob", "sample", "forward", "inverse"):
-        fn = getattr(TF.ZukoFlow, name)
-        g = {**fn.__globals__, "torch": shim}
-        nf = types.FunctionType(fn.__code__, g, name, fn.__defaults__, fn.__closure__)
-        nf.__kwdefaults__ = fn.__kwdefaults__
-        setattr(obj, name, types.MethodType(nf, obj))
     return obj
 
 
@@ -134,19 +225,16 @@ def flowjax_shell(net, data_transform):
 
     jnp = types.SimpleNamespace(asarray=lambda x, dtype=None: sx.asarray(x))
     jrandom = types.SimpleNamespace(split=lambda k: (k, k))
-    obj = JF.FlowJax.__new__(JF.FlowJax)
+    eqx = types.SimpleNamespace(filter_jit=_IDENT, filter_vmap=_IDENT)
+    jax = types.SimpleNamespace(jit=_IDENT, numpy=jnp, random=jrandom)
+    Sub = rebound_subclass(JF.FlowJax, {"jnp": jnp, "jrandom": jrandom, "eqx": eqx, "jax": jax})
+    obj = Sub.__new__(Sub)
     obj.dims = net.d
     obj.device = None
     obj.dtype = None
     obj.key = "key"
     obj.data_transform = data_transform
     obj._flow = _F()
-    for name in ("log_prob", "sample_and_log_prob", "sample", "forward", "inverse"):
-        fn = getattr(JF.FlowJax, name)
-        g = {**fn.__globals__, "jnp": jnp, "jrandom": jrandom}
-        nf = types.FunctionType(fn.__code__, g, name, fn.__defaults__, fn.__closure__)
-        nf.__kwdefaults__ = fn.__kwdefaults__
-        setattr(obj, name, types.MethodType(nf, obj))
     return obj
 
 
@@ -183,7 +271,7 @@ def wired_transform(ctx, d, bounded, lo, hi):
 
 class C03(Check):
     pid = "C03"
-    required_labels = ["c03/log_prob", "c03/agreement", "c03/within_bounds", "c03/forward_inverse"]
+    required_labels = ["c03/log_prob", "c03/agreement", "c03/within_bounds", "c03/forward_inverse", "c03/agreement@refit", "c03/log_prob@refit"]
     stubs = [
         "torch.as_tensor / jnp.asarray -> identity on symbolic arrays; torch.no_grad -> null context; jax.random.split -> (k, k) (code objects of the real methods re-bound)",
         "the trained network: base log-density B uninterpreted; bijection G abstract with G^-1(G y) = y and ladj_inv(G y) = -ladj(y) (trusted: zuko / flowjax produce a normalised flow)",
@@ -247,41 +335,47 @@ class C03(Check):
             for i in range(b):
                 prove_logj(ctx, Y[i], X[i], lp[i] - Bx[i], "c03/log_prob")
 
-            # 2. sampling and evaluation agree
-            xs, lq = flow.sample_and_log_prob(b, xp=sx)
-            lat = net.draws[-1]
-            if bounded:
-                # draws that land inside the documented clipping margin (within
-                # eps of a bound, relative to the width) are outside the claim
-                for r in _rows(xs):
-                    for k in range(d):
-                        w = H[k] - L[k]
-                        ctx.add_assume(z3.And(r[k] >= L[k] + core.rv(EPS) * w, r[k] <= L[k] + core.rv(1.0 - EPS) * w))
-            lp2 = flow.log_prob(xs, xp=sx)
-            back, ljf = tr.forward(xs)
-            _, lji = tr.inverse(lat)
-            same = []
-            stage = z3.BoolVal(True)
-            if bounded == "logit":
-                # staged: logit(sigmoid(v)) == v by injectivity of exp on the
-                # bounded part alone, then the affine part cancels
-                v, _ = tr._affine_transform.inverse(lat)
-                g, _ = tr._bounded_transform.forward(xs)
-                eqs = []
-                for p, q in zip(sx.terms(g), sx.terms(v)):
-                    ctx.prove(sx.term(sx.exp(sx.asarray(p - q))) == 1, "c03/sample_roundtrip_bounded")
-                    eqs.append(p == q)
-                stage = z3.And(*eqs)
-            for p, q in zip(sx.terms(back), sx.terms(lat)):
-                ctx.prove(z3.Implies(stage, p == q), "c03/sample_roundtrip")
-                same.append(p == q)
-            for i in range(b):
-                prove_eq_exp(ctx, ljf[i], -lji[i], "c03/sample_logj")
-            # with the two facts just proved as premises, the attached density
-            # equals log_prob at the drawn points
-            prem = z3.And(*same, *[sx.term(ljf[i]) == -sx.term(lji[i]) for i in range(b)])
-            for i in range(b):
-                ctx.prove(z3.Implies(prem, sx.term(lq[i]) == sx.term(lp2[i])), "c03/agreement")
+            # 2. sampling and evaluation agree -- before and after the network is
+            # replaced by a (re-)fit: whatever log_prob was evaluated with before,
+            # it must follow the network that sampling uses now
+            def agreement(net_, sfx):
+                xs, lq = flow.sample_and_log_prob(b, xp=sx)
+                lat = net_.draws[-1]
+                if bounded:
+                    # draws that land inside the documented clipping margin (within
+                    # eps of a bound, relative to the width) are outside the claim
+                    for r in _rows(xs):
+                        for k in range(d):
+                            w = H[k] - L[k]
+                            ctx.add_assume(z3.And(r[k] >= L[k] + core.rv(EPS) * w, r[k] <= L[k] + core.rv(1.0 - EPS) * w))
+                lp2 = flow.log_prob(xs, xp=sx)
+                back, ljf = tr.forward(xs)
+                _, lji = tr.inverse(lat)
+                same = []
+                stage = z3.BoolVal(True)
+                if bounded == "logit":
+                    # staged: logit(sigmoid(v)) == v by injectivity of exp on the
+                    # bounded part alone, then the affine part cancels
+                    v, _ = tr._affine_transform.inverse(lat)
+                    g, _ = tr._bounded_transform.forward(xs)
+                    eqs = []
+                    for p, q in zip(sx.terms(g), sx.terms(v)):
+                        ctx.prove(sx.term(sx.exp(sx.asarray(p - q))) == 1, "c03/sample_roundtrip_bounded" + sfx)
+                        eqs.append(p == q)
+                    stage = z3.And(*eqs)
+                for p, q in zip(sx.terms(back), sx.terms(lat)):
+                    ctx.prove(z3.Implies(stage, p == q), "c03/sample_roundtrip" + sfx)
+                    same.append(p == q)
+                for i in range(b):
+                    prove_eq_exp(ctx, ljf[i], -lji[i], "c03/sample_logj" + sfx)
+                # with the two facts just proved as premises, the attached density
+                # equals log_prob at the drawn points
+                prem = z3.And(*same, *[sx.term(ljf[i]) == -sx.term(lji[i]) for i in range(b)])
+                for i in range(b):
+                    ctx.prove(z3.Implies(prem, sx.term(lq[i]) == sx.term(lp2[i])), "c03/agreement" + sfx)
+                return xs
+
+            xs = agreement(net, "")
             xs2 = flow.sample(b, xp=sx)
             lat2 = net.draws[-1]
             want, _ = tr.inverse(lat2)
@@ -307,6 +401,15 @@ class C03(Check):
             for i in range(b):
                 # total forward log-Jacobian = network ladj + data-transform log-Jacobian
                 prove_logj(ctx, Y[i], X[i], lj_f[i] - gl[i], "c03/forward_logj")
+
+            # 5. after a (re-)fit replaced the network
+            net2 = AbstractNet(ctx, d, name="B2")
+            install_net(flow, net2, cfg["backend"])
+            agreement(net2, "@refit")
+            lp_new = flow.log_prob(x, xp=sx)
+            B2x = net2.base(y)
+            for i in range(b):
+                ctx.prove(sx.term(lp_new[i]) - sx.term(B2x[i]) == sx.term(lp[i]) - sx.term(Bx[i]), "c03/log_prob@refit", detail={"row": i})
 
             # translator validation: log_prob on the real wrapper + real FlowTransform
             # with NumPy, base density given in closed form, under a model
@@ -449,6 +552,29 @@ def replay_c03(cex):
                 bad.append(f"log-density attached to the draws {np.asarray(lq).tolist()} differs from log_prob at the draws {lp2.tolist()}")
             if bounded and not (np.all(xs > lo) and np.all(xs < hi)):
                 bad.append("draws outside the declared bounds")
+            # the network is replaced by a (re-)fit: evaluation must follow sampling
+            class Net2(Net):
+                def base(self, y):
+                    y = np.asarray(y, float)
+                    return -0.5 * np.sum((y / 1.5) ** 2, axis=-1) - d * math.log(1.5) - 0.5 * d * math.log(2 * math.pi)
+
+                def G(self, y):
+                    y = np.asarray(y, float)
+                    return 0.5 * y - 1.0, np.full(len(y), d * math.log(0.5))
+
+                def Ginv(self, z):
+                    z = np.asarray(z, float)
+                    return (z + 1.0) / 0.5, np.full(len(z), -d * math.log(0.5))
+
+            net2 = Net2()
+            net2.d = d
+            keep = flow._flow
+            install_net(flow, net2, cfg["backend"])
+            xs3, lq3 = flow.sample_and_log_prob(b, xp=NPX)
+            lp3 = np.asarray(flow.log_prob(xs3, xp=NPX))
+            if np.max(np.abs(np.asarray(lq3) - lp3)) > 1e-6 * max(1.0, float(np.max(np.abs(lp3)))):
+                bad.append(f"after the network was replaced by a (re-)fit, the log-density attached to the draws {np.asarray(lq3).tolist()} differs from log_prob at the draws {lp3.tolist()}")
+            flow._flow = keep
             z, ljf = flow.forward(x, xp=NPX)
             xb, lji = flow.inverse(z, xp=NPX)
             if np.max(np.abs(np.asarray(xb) - x)) > 1e-8 * max(1.0, float(np.max(np.abs(x)))):
